@@ -361,10 +361,18 @@ func (n *Node) newDBFT() {
 }
 
 func (n *Node) verifyTxs(txs []dbft.Transaction[vt.H]) bool {
+	for _, m := range n.W.Mons {
+		if m.VerifyTxs != nil {
+			m.VerifyTxs(n, txs)
+		}
+	}
 	if n.RejectBlocks {
 		return false
 	}
 	for _, tx := range txs {
+		if tx == nil {
+			return false // a block with a hole cannot be verified
+		}
 		if t, ok := tx.(vt.Tx); ok && t.Poisoned() {
 			return false
 		}
